@@ -37,6 +37,7 @@ pub struct Stats {
     pub acks_out_of_order: u32,
     pub failure_codes: u32,
     pub failing_payloads: u32,
+    pub pubcomp_owed_across_reconnect: u32,
     pub max_distinct_status: u32,
     pub deliveries: u32,
     pub inbound_qos2_dups: u32,
@@ -100,10 +101,14 @@ struct Owed {
     pid: u16,
     /// expected reason class: Some(true)=success, Some(false)=0x92 not found
     success: bool,
+    /// left over from a dead connection on which not even its bytes were accepted by the transport
+    never_written: bool,
 }
 
 #[derive(Clone, Debug, Default)]
 struct TrState {
+    /// a complete client packet was accepted by write() after the last completed flush()
+    unflushed_out: bool,
     connect_seen: bool,
     connected: Option<bool>, // Some(resumed)
     disconnect_done: bool,
@@ -253,7 +258,11 @@ impl<'a> Model<'a> {
                 TL::OpStart { op } => self.on_op_start(op),
                 TL::OpEnd { op } => self.on_op_end(op),
                 TL::OutStart(_) => {}
-                TL::OutDone(p) => self.on_out(p),
+                TL::OutDone(p) => {
+                    let ptr = self.v.out[p].tr;
+                    self.trs[ptr].unflushed_out = true;
+                    self.on_out(p)
+                }
                 TL::InDone(idx, _) => self.on_in(idx),
                 TL::Delivery { msg, .. } => self.on_delivery(msg),
                 TL::Fault { tr, kind } => {
@@ -261,6 +270,7 @@ impl<'a> Model<'a> {
                     let _ = (tr, kind);
                 }
                 TL::Flush { tr, .. } => {
+                    self.trs[tr].unflushed_out = false;
                     if Some(tr) == self.cur_tr {
                         self.unflushed_acks.clear();
                     }
@@ -325,6 +335,9 @@ impl<'a> Model<'a> {
         // flush) may or may not be repeated
         let mut o: VecDeque<Owed> = std::mem::take(&mut self.owed);
         self.optional.extend(self.unflushed_acks.drain(..));
+        for w in o.iter_mut() {
+            w.never_written = true;
+        }
         self.optional.append(&mut o);
         if self.expect_delivery.is_some() {
             self.expect_delivery = None;
@@ -641,6 +654,13 @@ impl<'a> Model<'a> {
         self.stats.idle_points += 1;
         let t = &self.trs[tr];
         if t.hostile || t.connected.is_none() || self.dead[tr].is_some() {
+            return;
+        }
+        // the client waits for the broker although a packet it has handed to the transport was
+        // never followed by a completed flush: on a buffering transport the broker never sees it
+        if t.unflushed_out {
+            self.bad("C16", "C16/waiting-with-unflushed-output", format!("op {op}: poll waits for input on transport {tr} but the last packet(s) written were not followed by a completed flush()"));
+            self.trs[tr].unflushed_out = false;
             return;
         }
         let resumed = t.connected == Some(true);
@@ -1361,12 +1381,12 @@ impl<'a> Model<'a> {
                         self.expect_delivery = Some(idx);
                     }
                     1 => {
-                        self.owed.push_back(Owed { ptype: 4, pid: pb.pid.unwrap(), success: true });
+                        self.owed.push_back(Owed { ptype: 4, pid: pb.pid.unwrap(), success: true, never_written: false });
                         self.expect_delivery = Some(idx);
                     }
                     _ => {
                         let pid = pb.pid.unwrap();
-                        self.owed.push_back(Owed { ptype: 5, pid, success: true });
+                        self.owed.push_back(Owed { ptype: 5, pid, success: true, never_written: false });
                         if self.pending_qos2.contains(&pid) {
                             self.stats.inbound_qos2_dups += 1;
                         } else {
@@ -1382,7 +1402,20 @@ impl<'a> Model<'a> {
                 if let Some(i) = pending {
                     self.pending_qos2.remove(i);
                 }
-                self.owed.push_back(Owed { ptype: 7, pid: a.pid, success: pending.is_some() });
+                // A successful PUBCOMP that the client owed when the previous connection died and of
+                // which the transport never accepted a complete copy has not been communicated to the
+                // broker: the client forgot the identifier when it read the first PUBREL, so if it
+                // also dropped the owed PUBCOMP it would now deny an exchange that completed. The
+                // owed answer becomes mandatory (and comes first), this PUBREL gets its own answer.
+                if pending.is_none() {
+                    if let Some(i) = self.optional.iter().position(|o| o.ptype == 7 && o.pid == a.pid && o.success && o.never_written) {
+                        let mut o = self.optional.remove(i).unwrap();
+                        o.never_written = false;
+                        self.owed.push_back(o);
+                        self.stats.pubcomp_owed_across_reconnect += 1;
+                    }
+                }
+                self.owed.push_back(Owed { ptype: 7, pid: a.pid, success: pending.is_some(), never_written: false });
             }
             Packet::PubAck(a) => self.on_broker_ack(in_op, FKind::Pub1, a.pid, a.code(), false),
             Packet::PubRec(a) => self.on_broker_ack(in_op, FKind::Pub2, a.pid, a.code(), false),
@@ -1494,7 +1527,11 @@ impl<'a> Model<'a> {
         let mut distinct = [false; 3];
         for (h, st) in s.handles.iter().enumerate() {
             if let HStatus::Inconsistent(bits) = st {
-                self.bad("C18", "C18/predicates-not-exclusive", format!("handle {h}: pending/complete/invalidated = {bits:03b}"));
+                if *bits == 0x40 {
+                    self.bad("C18", "C18/connection-and-session-disagree", format!("handle {h}: Connection::is_pending/is_complete/is_invalidated and the same queries through Connection::session() give different answers"));
+                } else {
+                    self.bad("C18", "C18/predicates-not-exclusive", format!("handle {h}: pending/complete/invalidated = {bits:03b}"));
+                }
                 continue;
             }
             if self.handle_ambiguous.get(h) == Some(&true) {
@@ -1531,6 +1568,17 @@ impl<'a> Model<'a> {
             if *st != want && !hostile {
                 let detail = format!("handle {h} ({} id {}): reported {:?}, model says {:?}", kind_name(f.kind), f.pid, st, want);
                 let early_complete = f.kind == FKind::Pub2 && matches!(f.phase, Phase::Released { .. }) && *st == HStatus::Complete;
+                // a completed handle that reads pending again exactly while a *later* request
+                // carries the same identifier (re-used after the 16-bit counter wrapped):
+                // the handle is a (kind, identifier, generation) triple and cannot tell the two apart
+                let fi0 = *fi;
+                let aliased = want == HStatus::Complete
+                    && *st == HStatus::Pending
+                    && self.flights.iter().enumerate().any(|(gi, g)| gi > fi0 && g.epoch == f.epoch && g.pid == f.pid && g.phase != Phase::Done);
+                if aliased {
+                    self.bad("C18", format!("C18/completed-handle-aliases-reused-identifier/{}", kind_name(f.kind)), format!("{detail}: a later request re-uses identifier {} and is still in flight", f.pid));
+                    continue;
+                }
                 self.bad("C18", format!("C18/status/{:?}-expected-{:?}/{}", st, want, kind_name(f.kind)), detail.clone());
                 if early_complete {
                     // C03: the exchange is over at PUBCOMP, not at PUBREC (the PUBREL is still owed)
